@@ -1,3 +1,4 @@
+from fractions import Fraction
 from rtamt.syntax.ast.visitor.stl.ast_visitor import StlAstVisitor
 from rtamt.semantics.interval.interval import Interval
 from rtamt.pastifier.ltl.pastifier import LtlPastifier
@@ -78,8 +79,8 @@ class StlPastifier(LtlPastifier, StlAstVisitor):
                     e_unit = self.ast.unit
             elif len(e_unit) == 0:
                 e_unit = b_unit
-            node.begin = node.begin * self.ast.U[b_unit] / self.ast.U[self.ast.unit]
-            node.end = node.end * self.ast.U[e_unit] / self.ast.U[self.ast.unit]
+            node.begin = Fraction(node.begin) * self.ast.U[b_unit] / self.ast.U[self.ast.unit]
+            node.end = Fraction(node.end) * self.ast.U[e_unit] / self.ast.U[self.ast.unit]
             node.begin_unit = ''
             node.end_unit = ''
         for child in node.children:
